@@ -2050,7 +2050,12 @@ class TargetRegistry:
             if isinstance(obj, cur_type):
                 sub_type = self._get_closest_type(obj, type_tree=sub_tree)
                 ret = cur_type if sub_type is None else sub_type
-                return ret
+                if ret not in mro:
+                    return ret if default is None else default
+                # with multiple inheritance a nearer ancestor may sit
+                # under another matching branch of the tree
+                if default is None or mro.index(ret) < mro.index(default):
+                    default = ret
         return default
 
     def _register_default_types(self):
